@@ -485,3 +485,86 @@ def g5(ctx: Ctx):
     # the blank token itself must be exactly one blank (anchor for everything above)
     sp = p.rule("space")
     ctx.ob("space", p.kind(sp) in ("regex", "literal") and p._is_space(sp), "rule `space` no longer matches exactly one blank", file=GRAMMAR_REL, line=p.line("space"))
+
+
+# ---------------------------------------------------------------------------
+# G5b BLANK-UNIFORM (blanks inside regex terminals)
+
+CONTENT_TERMINALS = {"str_literal", "partial_str_lit", "data_str_literal", "comment_text", "space"}
+
+
+def _char_class(ch: str) -> str:
+    if ch.isdigit():
+        return "digit"
+    if ch in "+-":
+        return "sign"
+    if ch in "ABCDF":
+        return "hexletter"
+    return ch
+
+
+@rule("G5b", "BLANK-UNIFORM: a terminal that admits a blank between two kinds of characters admits it there in all of its spellings", ["C08"], floor=2)
+def g5b(ctx: Ctx):
+    import itertools
+    import re as _re
+
+    p = peg(ctx)
+    for rname in sorted(p.rules):
+        e = p.rules[rname]
+        if (e.name or rname) != rname or p.kind(e) != "regex" or rname in CONTENT_TERMINALS:
+            continue
+        pat = e.re.pattern
+        if " " not in pat:
+            continue
+        # alphabet: one representative per character class the pattern mentions
+        alpha = [" "]
+        if "\\d" in pat or "0-9" in pat:
+            alpha.append("1")
+        if "A-F" in pat:
+            alpha.append("F")
+        for c in ".E+-&H":
+            if c in pat:
+                alpha.append(c)
+        alpha = sorted(set(alpha))
+        if len(alpha) > 7:
+            alpha = alpha[:7]
+        maxlen = 7 if len(alpha) <= 6 else 6
+        rx = _re.compile(pat)
+        members = set()
+        for n in range(1, maxlen + 1):
+            for tup in itertools.product(alpha, repeat=n):
+                s_ = "".join(tup)
+                if rx.fullmatch(s_):
+                    members.add(s_)
+        if not members:
+            raise AnalysisError("G5b", rname, "no member of the terminal's language found over the sample alphabet")
+        # boundary kinds at which a blank occurs in some spelling
+        kinds = set()
+        for s_ in members:
+            for i, ch in enumerate(s_):
+                if ch == " ":
+                    l_ = s_[:i].rstrip(" ")
+                    r_ = s_[i + 1 :].lstrip(" ")
+                    if l_ and r_:
+                        kinds.add((_char_class(l_[-1]), _char_class(r_[0])))
+        bad = None
+        for s_ in sorted(members, key=lambda x: (len(x), x)):
+            if " " in s_ or len(s_) >= maxlen:
+                continue
+            for i in range(1, len(s_)):
+                k = (_char_class(s_[i - 1]), _char_class(s_[i]))
+                if k in kinds:
+                    t = s_[:i] + " " + s_[i:]
+                    if t not in members and bad is None:
+                        # the blank is admitted at this kind of boundary elsewhere: find such a spelling
+                        other = next((m for m in sorted(members, key=len) if any(m[j] == " " and m[:j].rstrip(" ")[-1:] and (_char_class(m[:j].rstrip(" ")[-1]), _char_class(m[j + 1 :].lstrip(" ")[:1] or "?")) == k for j in range(len(m)))), None)
+                        bad = (s_, t, k, other)
+        ctx.ob(
+            rname,
+            bad is None,
+            "" if bad is None else f"terminal `{rname}` accepts {bad[0]!r} and, in another spelling ({bad[3]!r}), a blank between a {bad[2][0]} and a {bad[2][1]}, but not {bad[1]!r}: the two spellings of the same literal are treated differently",
+            file=GRAMMAR_REL,
+            line=p.line(rname),
+            facts={"sample_members": len(members), "blank_boundaries": sorted(map(list, kinds))},
+            witness="" if bad is None else f"10 A={bad[1]}",
+        )
